@@ -284,3 +284,47 @@ Example C01_network_repeated_pair :
   | Err _ => False
   end.
 Proof. vm_compute. repeat split; reflexivity. Qed.
+
+(* ================================================================== round 6: the callbacks' RESULTS *)
+(* "each [motif instance] obtained by applying that topology's build callback to size_k drawn stubs": the harness
+   logs (argument list, result) of every callback call of the real generators; c01_check_results = results_okb with
+   build_of_codes decides that every logged result is the builder's specification applied to the logged arguments
+   (clique_motif / cycle_motif / diamond_motif and the synthetic callbacks), i.e. the relation Results the
+   generator theorems above are stated with.  A builder with memory (a cached list extended by a caller) fails it. *)
+From GV Require Import Model.GenBig Proofs.GenBigP.
+
+Theorem C01_results_checker_iff : forall build calls results,
+  results_okb build calls results = true <->
+  Forall2 (fun c r => fst r = fst c /\ build (fst c) (snd c) = Ok (snd r)) calls results.
+Proof. exact results_okb_iff. Qed.
+Print Assumptions C01_results_checker_iff.
+
+Theorem C01_results_relation_on_flat_calls : forall build cs results,
+  Results build cs results <->
+  Forall2 (fun c r => fst r = fst c /\ build (fst c) (snd c) = Ok (snd r)) (map flat_call cs) results.
+Proof. exact results_flat_iff. Qed.
+Print Assumptions C01_results_relation_on_flat_calls.
+
+(* the three library builders in closed form: k(k-1)/2 pairs, k cycle edges, six diamond edges on four vertices *)
+Theorem C01_clique_builder_spec : forall l,
+  clique_motif l = Ok (Edges (combos2 l)) /\ 2 * length (combos2 l) = length l * (length l - 1).
+Proof. intros l. split; [reflexivity|apply combos2_length2]. Qed.
+Print Assumptions C01_clique_builder_spec.
+
+Theorem C01_cycle_builder_spec : forall l es, cycle_motif l = Ok (Edges es) -> length es = length l.
+Proof. exact cycle_motif_length. Qed.
+Print Assumptions C01_cycle_builder_spec.
+
+Theorem C01_diamond_builder_spec : forall l es, diamond_motif l = Ok (Edges es) -> length l = 4 /\ length es = 6.
+Proof. exact diamond_motif_shape. Qed.
+Print Assumptions C01_diamond_builder_spec.
+
+(* non-vacuity: the 4-cycle on (2,0,1,3) is accepted; the six edges a cycle builder returns after a diamond call
+   extended its cached list in place are rejected *)
+Example C01_results_checker_discriminates :
+  results_okb (build_of_codes [2; 1]) [(0, [2;0;1;3]); (1, [2;0;1;3])]
+              [(0, Edges [(2,0);(0,1);(1,3);(2,3);(2,1);(0,3)]); (1, Edges [(2,0);(0,1);(1,3);(2,3)])] = true /\
+  results_okb (build_of_codes [2; 1]) [(0, [2;0;1;3]); (1, [2;0;1;3])]
+              [(0, Edges [(2,0);(0,1);(1,3);(2,3);(2,1);(0,3)]);
+               (1, Edges [(2,0);(0,1);(1,3);(2,3);(2,1);(0,3)])] = false.
+Proof. split; vm_compute; reflexivity. Qed.
